@@ -26,6 +26,8 @@ Decides:
                    spelling nor the kind of the word itself takes part.
  W every swallow   every way from the inner failure to Ok(None) in parse_option (also the `catch` way) hands the hints of the failed attempt over.
  E offered anyway  take_argument pushes its name hint on every way out of the "name is not on the line" arm, also when the value then comes from the environment.
+ P value mode      "only values make sense" is concluded from hints of the active level only (only_value is asked about elements of the depth-filtered
+                   iterator, never about all collected hints).
 Does not decide: the candidate set for a given prefix (depth / prefix filtering is value-level)."""
 import re
 from core import *
